@@ -37,7 +37,9 @@ var c16Nums = []string{"0", "-0", "1", "-1", "2", "0.4", "0.5", "0.6", "1.5", "2
 	"2147483647", "2147483646.5", "2147483647.4", "2147483647.5", "2147483648", "-2147483648", "-2147483648.4", "-2147483648.5", "-2147483649",
 	"9007199254740992", "9007199254740993", "9223372036854775807", "9223372036854775808", "-9223372036854775808", "-9223372036854775809", "9223372036854774784", "9223372036854775296", "-9223372036854774784",
 	"4503599627370497", "4503599627370497.0", "9007199254740991", "9007199254740991.0", "6755399441055745", "0.49999999999999994", "-0.49999999999999994", "1.4999999999999998", "2.5000000000000004",
-	"1e18", "1e19", "1e308", "-1e308", "5e-324", "1e-7", "123456789012345678901234567890", "1e400", "-1e400", "1e-400"}
+	"1e18", "1e19", "1e308", "-1e308", "5e-324", "1e-7", "123456789012345678901234567890", "1e400", "-1e400", "1e-400",
+	// whole numbers spelled with a fraction part or an exponent, integer parts that end in zeros
+	"10.0", "1200.0", "-250.000", "100.00", "1000000.0", "12e2", "1.2e3", "1200.00e0", "120.0e1", "10.50", "100.50", "2147483640.0", "-2147483640.00", "20.0e-1", "5000e-3", "0.0", "-0.0", "0.00e5", "1e2", "30.0"}
 
 var c16Other = []string{`null`, `true`, `false`, `""`, `"abc"`, `"true"`, `"false"`, `"t"`, `"F"`, `"yes"`, `"NO"`, `"on"`, `"off"`, `"1"`, `"0"`, `" 1"`, `"1 "`, `"+1"`, `"1e2"`, `"0x10"`, `"NaN"`, `"Infinity"`, `"-inf"`, `"1_0"`, `"tr"`, `"o"`, `"tree"`, `"truE"`, `"trux"`, `"falsy"`, `"fall"`, `"yess"`, `"nope"`, `"nn"`, `"onn"`, `"offf"`, `"11"`, `"00"`, `"01"`, `"2"`, `"-1"`, `"truee"`, `"ye s"`, `"ok"`,
 	`[[1,2]]`, `[[[1]]]`, `[[]]`, `[1,[2]]`, `[["3"]]`, `[[true]]`,
